@@ -207,6 +207,37 @@ def run(rep, tier, root=None):
                           "everybody else (no seed or generator can be passed in)" % d, f.where(n))
         if not bad:
             rep.ok("P2.no-hidden-state", f.fq, "no module/class/function state written, no memoisation, no global random state", False)
+    # P2.instance-config: an attribute a constructor sets once and no method ever re-assigns is the object's configuration; a
+    # method that modifies it in place (directly or through an alias) makes its own second call start from different state
+    n_cls = 0
+    for mod_ in ix.modules.values():
+        for cls_ in getattr(mod_, "classes", {}).values():
+            init_ = cls_.find_method("__init__")
+            if init_ is None:
+                continue
+            n_cls += 1
+            cfg = set(fx.summary(init_).attr_writes)
+            later_, muts_ = set(), []
+            for name_, meth_ in cls_.all_methods().items():
+                if meth_ is init_:
+                    continue
+                sm_ = fx.summary(meth_)
+                later_ |= sm_.attr_writes
+                for a_, evs_ in sm_.attr_mut.items():
+                    muts_ += [(a_, meth_, ev_) for ev_ in evs_ if ev_.kind == "data"]
+            # methods the constructor itself runs (set-up steps) may fill what the constructor allocated
+            setup_ = set()
+            for n_ in ast.walk(init_.node):
+                if isinstance(n_, ast.Call) and isinstance(n_.func, ast.Attribute) and isinstance(n_.func.value, ast.Name) and n_.func.value.id == "self":
+                    setup_.add(n_.func.attr)
+            hits_ = [(a_, m_, ev_) for a_, m_, ev_ in muts_ if a_ in cfg and a_ not in later_ and m_.name not in setup_]
+            for a_, m_, ev_ in hits_:
+                rep.violation("P2.instance-config", "%s: %s modifies self.%s" % (m_.fq, ev_.stmt_text()[:60], a_),
+                              "self.%s is set by the constructor and never re-assigned, and %s modifies it in place (%s): the same call on the "
+                              "same object gives a different result the second time" % (a_, m_.name, ev_.how), ev_.where())
+            if not hits_:
+                rep.ok("P2.instance-config", cls_.fq + ": no method modifies in place what only the constructor assigns", "", False)
+    rep.floor("P2 classes with a constructor", n_cls, 3)
     # P3 batch clause for trailing-axes functions
     from . import c20_batch
     nb = c20_batch.check(rep, ix)
